@@ -1,0 +1,46 @@
+//go:build verif
+
+package miner
+
+// Contracts for govc (see /verif/DESIGN.md, C08). Comment-only; compiled only with -tags verif.
+// Proof verification, binding and the target are functions of mass-core (contracts/ext/miner.spec); the contracts pin
+// what the miner does with them.
+
+//@ func getValidProofs
+//@   requires no-nil-entries: forall i int :: 0 <= i && i < len(proofs) ==> proofs[i] != nil && (proofs[i].Error == nil ==> proofs[i].Proof != nil && proofs[i].PublicKey != nil)
+//@   ensures only-proofs-without-error: len(result) <= len(proofs) && (forall j int :: 0 <= j && j < len(result) ==> result[j] != nil && result[j].Error == nil && result[j].Proof != nil && result[j].PublicKey != nil)
+//@   loop * invariant kept-so-far: -1 <= #rangeindex && #rangeindex < len(proofs) && len(result) <= #rangeindex + 1 && fresh(result) && (forall j int :: 0 <= j && j < len(result) ==> result[j] != nil && result[j].Error == nil && result[j].Proof != nil && result[j].PublicKey != nil) && (forall i int :: 0 <= i && i < len(proofs) ==> proofs[i] != nil && (proofs[i].Error == nil ==> proofs[i].Proof != nil && proofs[i].PublicKey != nil))
+
+//@ func getBindingProofs
+//@   requires template != nil
+//@   requires only-valid-entries: forall i int :: 0 <= i && i < len(proofs) ==> proofs[i] != nil && proofs[i].Error == nil && proofs[i].Proof != nil && proofs[i].PublicKey != nil
+//@   ensures only-valid-proofs-kept: len(result) <= len(proofs) && (forall j int :: 0 <= j && j < len(result) ==> result[j] != nil && result[j].Error == nil && result[j].Proof != nil && result[j].PublicKey != nil)
+//@   ensures only-bound-proofs-kept: forall j int :: 0 <= j && j < len(result) ==> passB(result[j])
+//@   assert-at call PassBinding binding-asked-of-the-template-for-this-proof: unbox("*engine.WorkSpaceProof", arg0) == proofs[#rangeindex + 1]
+//@   loop * invariant kept-so-far: -1 <= #rangeindex && #rangeindex < len(proofs) && len(result) <= #rangeindex + 1 && fresh(result) && (forall j int :: 0 <= j && j < len(result) ==> result[j] != nil && result[j].Error == nil && result[j].Proof != nil && result[j].PublicKey != nil) && (forall i int :: 0 <= i && i < len(proofs) ==> proofs[i] != nil && proofs[i].Error == nil && proofs[i].Proof != nil && proofs[i].PublicKey != nil)
+//@   loop * invariant bound-so-far: forall j int :: 0 <= j && j < len(result) ==> passB(result[j])
+
+//@ func getQualities
+//@   requires entries-have-proofs: forall i int :: 0 <= i && i < len(proofs) ==> proofs[i] != nil && proofs[i].Proof != nil && proofs[i].PublicKey != nil
+//@   ensures one-verified-quality-per-proof: err == nil ==> len(result0) == len(proofs) && fresh(result0) && (forall j int :: 0 <= j && j < len(proofs) ==> result0[j] != nil && fresh(result0[j]))
+//@   assert-at call VerifiedQuality verified-for-this-challenge-slot-and-height: arg0 == proofs[#rangeindex + 1].Proof && arg1 == lastresult("PubKeyHash") && arg2 == challenge && arg3 == filter && arg4 == slot && arg5 == height
+//@   assert-at call PubKeyHash seed-is-the-proof-public-key: arg0 == proofs[#rangeindex + 1].PublicKey
+//@   loop * invariant qualities-so-far: -1 <= #rangeindex && #rangeindex < len(proofs) && len(qualities) == len(proofs) && fresh(qualities) && (forall j int :: 0 <= j && j <= #rangeindex ==> qualities[j] != nil && fresh(qualities[j]))
+
+//@ spec func usable(ps []*engine.WorkSpaceProof) bool = forall i int :: 0 <= i && i < len(ps) ==> ps[i] != nil && ps[i].Error == nil && ps[i].Proof != nil && ps[i].PublicKey != nil
+
+//@ func (*PoCMiner).syncGetBestProof
+//@   requires pocTemplate != nil && m.SpaceKeeper != nil && m.chain != nil
+//@   assert-at call GetProofs mining-spaces-asked-for-the-template-challenge: arg2 == 8 && arg3 == pocTemplate.Challenge
+//@   assert-at call getValidProofs filters-what-the-keeper-returned: arg0 == lastresult("GetProofs")
+//@   assert-at call getBindingProofs then-the-binding-filter-of-this-template: arg0 == lastresult("getValidProofs") && arg1 == pocTemplate
+//@   assert-at call getQualities qualities-of-the-filtered-proofs-at-the-work-slot: arg0 == lastresult("getBindingProofs") && arg1 == challenge && arg3 == workSlot && arg4 == pocTemplate.Height
+//@   assert-at call getQualities within-the-allowed-look-ahead: workSlot <= nowSlot + 1
+//@   assert-at call getQualities not-after-a-better-tip-arrived: !lastresult("staled")
+//@   assert-at call GetTarget target-at-the-block-timestamp: arg0 == deref(pocTemplate.Timestamp)
+//@   assert-at return#-1 best-quality-of-the-slot: 0 <= bestProofIndex && bestProofIndex < len(qualities) && qualities[bestProofIndex] == bestQuality && (forall j int :: 0 <= j && j < len(qualities) ==> bigv[qualities[j]] <= bigv[bestQuality])
+//@   assert-at return#-1 quality-exceeds-the-target: bigv[bestQuality] > bigv[lastresult("GetTarget")]
+//@   assert-at return#-1 winning-proof-time-and-quality-returned: result0 != nil && result0.proof == lastresult("getBindingProofs")[bestProofIndex] && result0.quality == bestQuality && result0.time == deref(pocTemplate.Timestamp) && result1 == nil
+//@   loop #1 invariant round-state: bestQuality != nil && pocTemplate != nil && usable(proofs)
+//@   loop #2 invariant slot-state: bestQuality != nil && i == workSlot && usable(proofs)
+//@   loop #3 invariant best-so-far: -1 <= #rangeindex && #rangeindex < len(qualities) && bestQuality != nil && (forall j int :: 0 <= j && j <= #rangeindex ==> bigv[qualities[j]] <= bigv[bestQuality]) && (bigv[bestQuality] > 0 ==> 0 <= bestProofIndex && bestProofIndex <= #rangeindex && qualities[bestProofIndex] == bestQuality) && bigv[bestQuality] >= 0
